@@ -213,7 +213,7 @@ class ModuleInfo:
 
 BUILTINS = {"len", "int", "float", "str", "list", "abs", "print", "setattr", "getattr", "exec", "compile", "super",
             "sorted", "isinstance", "type", "repr", "bool", "min", "max", "sum", "range", "dict", "set", "tuple",
-            "hash", "id", "open", "input", "eval", "map", "round", "any", "all", "enumerate", "zip", "reversed",
+            "hash", "id", "open", "globals", "locals", "vars", "input", "eval", "map", "round", "any", "all", "enumerate", "zip", "reversed",
             "NotImplementedError", "ValueError", "TypeError", "RuntimeError", "KeyError", "IndexError", "Exception"}
 
 
@@ -900,6 +900,17 @@ class Exec:
             if pok is not None:
                 res.append((pok, z3.Function("dict_get", Val, Val, Val)(cont, key)))
             return res
+        if z3.is_expr(base) and base.sort() == Val:
+            # an opaque mapping / sequence (module globals(), a namespace kept on an object, ...)
+            key = to_val(ix)
+            has = z3.Function("dict_has", Val, Val, B)(base, key)
+            pok, pbad = self.split(p, has)
+            res = []
+            if pbad is not None:
+                res.append((pbad, Raise("KeyError", "line %d" % ln)))
+            if pok is not None:
+                res.append((pok, z3.Function("dict_get", Val, Val, Val)(base, key)))
+            return res
         raise OutOfSubset("subscript on %r (line %d)" % (base, ln))
 
     def slice(self, e, base, p):
@@ -963,6 +974,33 @@ class Exec:
                 raise OutOfSubset("loop inside an inlined helper")
         return res
 
+    NONDETERMINISTIC_MODULES = ("random", "time", "os", "uuid", "secrets", "socket", "threading", "datetime", "locale", "sys", "platform", "tempfile", "getpass")
+
+    def generic_external(self, q, pos, kw, p, node):
+        """a library function without an assumed contract: modelled as an UNINTERPRETED function of its arguments that may
+        raise (listed in evidence as `assumed pure`); functions of environment-dependent modules are havoc"""
+        if q.startswith("pyab_experiment.") or q.startswith("builtins."):
+            return None
+        try:
+            args = [to_val(a) for a in pos] + [to_val(v) for _, v in sorted(kw.items()) if _ != "**"]
+        except OutOfSubset:
+            return None
+        self.reg.trusted.add(q + " (no assumed contract: modelled as a pure function of its arguments)")
+        root = q.split(".")[0]
+        res = []
+        cond = z3.Function("raises:" + q, *([Val] * len(args) + [B]))(*args) if args else z3.Const("raises:" + q, B)
+        pr, pn = self.split(p, cond)
+        if pr is not None:
+            res.append((pr, Raise("Exception", "%s raised" % q)))
+        if pn is not None:
+            if root in self.NONDETERMINISTIC_MODULES:
+                pn.havoc.append((q + " (environment-dependent)", node.lineno))
+                res.append((pn, fresh("havoc_" + q.replace(".", "_"), Val)))
+            else:
+                f = z3.Function("ext:" + q, *([Val] * len(args) + [Val]))
+                res.append((pn, f(*args) if args else z3.Const("ext:" + q, Val)))
+        return res
+
     def ex_Call(self, e, p):
         out = []
         for p1, f in self.expr(e.func, p):
@@ -992,6 +1030,9 @@ class Exec:
                 inl = self.inline(f.q, pos, kw, p, node)
                 if inl is not None:
                     return inl
+                gen = self.generic_external(f.q, pos, kw, p, node)
+                if gen is not None:
+                    return gen
                 raise OutOfSubset("unmodelled call %s (line %d)" % (f.q, node.lineno))
             return h(self, p, pos, kw, node)
         if isinstance(f, tuple) and f[0] == "boundmethod":
